@@ -78,6 +78,7 @@ type vScenario struct {
 	Probe     string            ` + "`json:\"probe,omitempty\"`" + `
 	CleanOptsN  int             ` + "`json:\"clean_opts_n,omitempty\"`" + `
 	CleanBefore bool            ` + "`json:\"clean_before,omitempty\"`" + `
+	SetGoflags  string          ` + "`json:\"set_goflags,omitempty\"`" + `
 }
 
 // vclean calls snaps.Clean the way the scenario asks for: without options, with one
@@ -305,6 +306,11 @@ func TestMain(m *testing.M) {
 	}
 	wd, _ := os.Getwd()
 	vlog(map[string]any{"ev": "proc", "args": os.Args, "cwd": wd})
+	if vscn.SetGoflags != "" {
+		// a TestMain that prepares the environment of the go build / go run children its
+		// tests start: what the test binary itself was built with is long decided
+		os.Setenv("GOFLAGS", strings.TrimSpace(os.Getenv("GOFLAGS")+" "+vscn.SetGoflags))
+	}
 	if vscn.CleanBefore {
 		// Clean is also called BEFORE the tests run (a TestMain that reports first): nothing is
 		// registered yet, everything is listed; in a mode that may not delete this is harmless
